@@ -63,6 +63,9 @@ CLAIMED = {
     "C08": ("runtime monitoring: pointbasedvalueiteration.point_based_value_iteration wrapped source-free to capture the belief set the returned alpha vectors were computed on and the number k of back-ups; boundary recorder on policy.value/action_value/action_dist; oracle = independent exact expectimax bracket [L,U] of V*(b) with sound leaf bounds, belief-weighted reference MDP action values, point-based residual and k-step exactness on successor-closed belief sets",
             "Held-on-K-executions over generated POMDPs, thresholds, horizons, budgets and beliefs. Exploration: all-inputs property; V* is only bracketed, never computed exactly.",
             "trusts mon/ref/pomdp.py (expectimax on unnormalised beliefs) and mon/ref/mdp.py; slack uses k observed at run time", "§4 C08"),
+    "C09": ("runtime monitoring: boundary recorder on stochastic_fsc_policy_evaluation_exact; the same function wrapped as seen from the bounded-policy-iteration module records every value table inside one train_on (monotonicity); StochasticFiniteStateController driven along all action/observation histories up to length 3 and its agent state compared with the hidden-node forward algorithm; reference cross-product solve with absorbing states terminal",
+            "Held-on-K-executions over generated POMDPs, controllers, histories and learner seeds. Exploration: all-inputs / all-histories property.",
+            "trusts mon/ref/fsc.py and mon/ref/pomdp.py; known finding C09-fsc-evaluation-ignores-absorbing-states is mechanism-keyed", "§4 C09"),
 }
 
 PENDING_REASON = "check not built yet in this round (design in DESIGN.md §4); not claimed until its monitor exists and is silent on the unchanged tree"
